@@ -214,3 +214,67 @@ package core
 //@ functype JApiCore.directiveFunctions(d)
 //@   requires directive.dirOK(d)
 //@   modifies anything
+
+// ---------------------------------------------------------------------------
+// Determinism (C06): map ranges whose body calls into jsight-schema-core. The mechanical check cannot see that these
+// calls commute; each line is an assumption listed in the evidence.
+//@ maporder (*JApiCore).compileUserTypeWithAllDependencies 1 AddRule registers rules under distinct names taken from a map's keys; the dependency stores them in its own map (assumed commutative)
+//@ maporder newPathVariablesSchema 1 AddType registers user types under distinct names taken from a map's keys (assumed commutative)
+
+// ---------------------------------------------------------------------------
+// MACRO / PASTE (C10, C03, C01)
+
+// every entry of a directive list is a scanned directive (established by processContext, which only appends dirOK directives)
+//@ pred dirsOK(l []*directive.Directive) := 0 <= l.off && forallp(j, at(l, j), imp(l.off <= j && j < l.off + len(l), directive.dirOK(at(l, j))))
+// heap-wide: the children of every directive are scanned directives, and every registered macro is one
+//@ pred childrenOK() := forallp(d, j, at((*directive.Directive)(d).Children, j),
+//@     imp(d != 0 && (*directive.Directive)(d).Children.off <= j && j < (*directive.Directive)(d).Children.off + len((*directive.Directive)(d).Children),
+//@         directive.dirOK(at((*directive.Directive)(d).Children, j))))
+//@ pred macrosOK(core *JApiCore) := core.macro != nil && forall(k, string, imp(has(core.macro, k), directive.dirOK(core.macro[k])))
+//@ pred pasteDepthOK(core *JApiCore) := 0 <= core.pasteDepth && core.pasteDepth <= len(core.macro)
+
+//@ func (*JApiCore).addMacro(core, d)
+//@   property C10,C03,C01
+//@   requires core != nil && macrosOK(core) && directive.dirOK(d)
+//@   modifies core.macro[:]
+//@   ensures[C03,C10,@duplicate-macro] imp(old(d.namedParameters != nil && has(d.namedParameters, "Name") && has(core.macro, d.namedParameters["Name"])), result != nil)
+//@   ensures[C03,C07,@macro-error-at] imp(result != nil, result.File == d.keywordCoords.file && result.Index == d.keywordCoords.begin)
+//@   ensures imp(result == nil, has(core.macro, d.namedParameters["Name"]) && core.macro[d.namedParameters["Name"]] == d)
+//@   ensures macrosOK(core)
+
+//@ func (*JApiCore).collectMacro(core)
+//@   property C10,C01
+//@   requires core != nil && macrosOK(core) && dirsOK(core.directives)
+//@   modifies core.macro[:], core.directives, core.directives[:]
+//@   ensures[C10,@macro-definitions-removed] imp(result == nil, forallp(j, at(core.directives, j),
+//@       imp(core.directives.off <= j && j < core.directives.off + len(core.directives), at(core.directives, j).type_ != directive.Macro)))
+//@   ensures macrosOK(core) && imp(result == nil, dirsOK(core.directives))
+//@ func (*JApiCore).collectMacro loop 1
+//@   invariant 0 <= i && i <= len(core.directives) && macrosOK(core) && dirsOK(core.directives)
+//@   invariant core.directives.arr == old(core.directives.arr) && core.directives.off == old(core.directives.off)
+//@   invariant forallp(j, at(core.directives, j), imp(core.directives.off <= j && j < core.directives.off + i, at(core.directives, j).type_ != directive.Macro))
+
+//@ func (*JApiCore).processPasteDirective(core, paste)
+//@   property C10,C03,C01
+//@   requires core != nil && macrosOK(core) && childrenOK() && directive.dirOK(paste) && pasteDepthOK(core)
+//@   modifies anything
+//@   ensures[C10,C03,@undefined-macro] imp(old(!(paste.namedParameters != nil && has(paste.namedParameters, "Name") && has(core.macro, paste.namedParameters["Name"]))), result != nil)
+//@   ensures[C10,C01,@paste-depth-bounded] core.pasteDepth == old(core.pasteDepth)
+
+// The tree walk of the expansion (processPasteDirectiveList <-> processDirective) and the rule collection are not under
+// contract yet: their contracts are assumed where processPasteDirective calls them.
+//@ func (*JApiCore).processPasteDirectiveList(core, list)
+//@   property C10,C01
+//@   attr trusted
+//@   requires core != nil && macrosOK(core)
+//@   requires childrenOK()
+//@   requires dirsOK(list)
+//@   requires[C10,C01,@paste-depth-bounded] pasteDepthOK(core)
+//@   modifies anything
+//@   ensures core.pasteDepth == old(core.pasteDepth) && macrosOK(core) && childrenOK() && len(core.macro) == old(len(core.macro))
+//@ func (*JApiCore).collectRulesFromDirectives(core, dd)
+//@   attr trusted
+//@   requires core != nil
+//@   modifies anything
+//@   ensures core.pasteDepth == old(core.pasteDepth) && macrosOK(core) && childrenOK() && len(core.macro) == old(len(core.macro))
+//@   ensures core.macro == old(core.macro) && forall(k, string, has(core.macro, k) == old(has(core.macro, k)) && core.macro[k] == old(core.macro[k]))
